@@ -397,7 +397,15 @@ var prop = stats.Prop(R, "cell", gen1, check)
 func TestCell(t *testing.T) { rapid.Check(t, prop) }
 
 // Concurrent evaluation of independent cells must give each its own exact result.
-var propParallel = stats.ParallelProp(R, "parallel", gen1, check, 6)
+func genPar(t *rapid.T) Case {
+	c := gen1(t)
+	if stats.FirstUse() {
+		c.ViaDecoder = true // the decoder is where wavelengths are looked up
+	}
+	return c
+}
+
+var propParallel = stats.ParallelProp(R, "parallel", genPar, check, 6)
 
 func TestParallel(t *testing.T) { rapid.Check(t, propParallel) }
 
